@@ -389,7 +389,12 @@ def collect(res, scs, files, outs, replay_dir):
             # a frame that is absent only counts after the runner's generous wait
             soft = [v for v in vs if v["w"].startswith("missing") and not v["timeout"]]
             evs = None
+            if soft and res.setdefault("patient_reruns", 0) >= 6:
+                # (each re-run takes minutes; six are enough to establish what is wrong with a tree)
+                log(f"scenario {sid}: soft verdict skipped, {res['patient_reruns']} patient re-runs done already")
+                continue
             if soft:
+                res["patient_reruns"] += 1
                 # The observer misses a frame although the runner saw nothing owed (the two work from different rules).
                 # Absence counts only after the long wait: the scenario runs once more, every wait held for the full
                 # long timeout whatever the runner believes is owed, and only that run is judged.
